@@ -46,7 +46,12 @@ Proof.
 Qed.
 
 (** ** type references *)
-Lemma type_ref_full S t : forall d, (sty_levels t <= d)%nat -> type_ref S d t = Some (full_ref S t).
+Lemma type_ref_cut S t : forall d, type_ref S d t = cut_ref d (full_ref S t).
+Proof.
+  induction t as [n|u IH|u IH]; intros [|d]; simpl; auto; rewrite IH; reflexivity.
+Qed.
+
+Lemma cut_full_id S t : forall d, (sty_levels t <= d)%nat -> cut_ref d (full_ref S t) = Some (full_ref S t).
 Proof.
   induction t as [n|u IH|u IH]; intros d Hd; (destruct d as [|d]; [simpl in Hd; lia|]); simpl in *.
   - reflexivity.
@@ -54,14 +59,28 @@ Proof.
   - rewrite IH by lia. reflexivity.
 Qed.
 
+(** the resolvers themselves serve a chain of any length: a query nesting [ofType] deep enough
+    sees all of it *)
+Lemma type_ref_full S t : forall d, (sty_levels t <= d)%nat -> type_ref S d t = Some (full_ref S t).
+Proof. intros d Hd. rewrite type_ref_cut. apply cut_full_id. exact Hd. Qed.
+
+Lemma type_ref_top_cut S t : type_ref_top S t = cut_top query_depth (full_ref S t).
+Proof. unfold type_ref_top, cut_top. rewrite type_ref_cut. reflexivity. Qed.
+
+Lemma cut_top_full_id S t d : (sty_levels t <= d)%nat -> cut_top d (full_ref S t) = full_ref S t.
+Proof. intro H. unfold cut_top. rewrite cut_full_id by exact H. reflexivity. Qed.
+
 Lemma type_ref_top_full S t : (sty_levels t <= query_depth)%nat -> type_ref_top S t = full_ref S t.
-Proof. intro H. unfold type_ref_top. rewrite type_ref_full by exact H. reflexivity. Qed.
+Proof. intro H. rewrite type_ref_top_cut. apply cut_top_full_id. exact H. Qed.
 
 Lemma named_ref_eq S n : named_ref S n = full_ref S (StNamed n).
 Proof. reflexivity. Qed.
 
 Lemma tref_name_full S n : tref_name (full_ref S (StNamed n)) = n.
 Proof. reflexivity. Qed.
+
+Lemma map_id_in {A} (f : A -> A) l : (forall x, In x l -> f x = x) -> map f l = l.
+Proof. induction l as [|x r IH]; simpl; intro H; auto. rewrite H, IH; auto. Qed.
 
 (** ** members of the result *)
 Lemma nullable_opt s : nullable_string s = opt_text s.
@@ -75,44 +94,99 @@ Section Members.
   Variable pr : sty -> option gval -> D.
   Variable S : schema.
   Variable F : features.
+  Let qd := query_depth.
 
-  Lemma input_eq a : depth_ok_input a = true -> intro_input D pr S a = describe_input D pr S a.
+  Lemma input_eq a : intro_input D pr S a = trunc_input D qd (describe_input D pr S a).
+  Proof. unfold intro_input, describe_input, trunc_input; simpl. rewrite type_ref_top_cut. reflexivity. Qed.
+
+  Lemma inputs_eq l :
+    norm_inputs D (map (intro_input D pr S) l) = map (trunc_input D qd) (describe_inputs D pr S l).
   Proof.
-    intro H. unfold intro_input, describe_input. rewrite type_ref_top_full; auto.
-    apply Nat.leb_le. exact H.
+    unfold norm_inputs, describe_inputs.
+    rewrite (map_ext _ _ input_eq). rewrite <- map_map.
+    rewrite (sort_map ri_name (trunc_input D qd)). reflexivity.
   Qed.
 
-  Lemma inputs_eq l : forallb depth_ok_input l = true ->
-    norm_inputs D (map (intro_input D pr S) l) = describe_inputs D pr S l.
+  Lemma field_eq f : norm_field D (intro_field D pr S f) = trunc_field D qd (describe_field D pr S f).
   Proof.
-    intro H. unfold norm_inputs, describe_inputs. f_equal. apply map_ext_in. intros a Ha.
-    apply input_eq. rewrite forallb_forall in H. auto.
+    unfold norm_field, intro_field, describe_field, trunc_field; simpl.
+    rewrite inputs_eq. rewrite type_ref_top_cut. rewrite deprecated_eq. reflexivity.
   Qed.
 
-  Lemma field_eq f : depth_ok_field f = true -> norm_field D (intro_field D pr S f) = describe_field D pr S f.
+  Lemma fields_eq fs :
+    sort_by rf_name (map (norm_field D) (intro_fields D pr S F fs)) = map (trunc_field D qd) (describe_fields D pr S F fs).
   Proof.
-    intro H. apply andb_true_iff in H as [H1 H2].
-    unfold norm_field, intro_field, describe_field; simpl.
-    rewrite inputs_eq by exact H2. rewrite type_ref_top_full by (apply Nat.leb_le; exact H1).
-    rewrite deprecated_eq. reflexivity.
-  Qed.
-
-  Lemma fields_eq fs : forallb depth_ok_field fs = true ->
-    sort_by rf_name (map (norm_field D) (intro_fields D pr S F fs)) = describe_fields D pr S F fs.
-  Proof.
-    intro H. unfold intro_fields, describe_fields. f_equal. rewrite map_map. apply map_ext_in.
-    intros f Hf. apply field_eq. rewrite forallb_forall in H. apply H. apply filter_In in Hf. tauto.
+    unfold intro_fields, describe_fields. rewrite map_map. rewrite (map_ext _ _ field_eq). rewrite <- map_map.
+    rewrite (sort_map rf_name (trunc_field D qd)). reflexivity.
   Qed.
 
   Lemma enum_eq v : intro_enum v = describe_enum_value v.
   Proof. unfold intro_enum, describe_enum_value. rewrite deprecated_eq. reflexivity. Qed.
 
-  Lemma directive_eq d : forallb depth_ok_input (dd_args (snd d)) = true ->
-    norm_directive D (intro_directive D pr S d) = describe_directive D pr S d.
+  Lemma directive_eq d :
+    norm_directive D (intro_directive D pr S d) = trunc_directive D qd (describe_directive D pr S d).
   Proof.
-    intro H. unfold norm_directive, intro_directive, describe_directive; simpl. rewrite inputs_eq by exact H. reflexivity.
+    unfold norm_directive, intro_directive, describe_directive, trunc_directive; simpl. rewrite inputs_eq. reflexivity.
+  Qed.
+
+  (** within the query's depth nothing is cut *)
+  Lemma trunc_input_id a : depth_ok_input a = true -> trunc_input D qd (describe_input D pr S a) = describe_input D pr S a.
+  Proof.
+    intro H. unfold trunc_input, describe_input; simpl. rewrite cut_top_full_id; auto. apply Nat.leb_le. exact H.
+  Qed.
+
+  Lemma trunc_inputs_id l : forallb depth_ok_input l = true ->
+    map (trunc_input D qd) (describe_inputs D pr S l) = describe_inputs D pr S l.
+  Proof.
+    intro H. apply map_id_in. intros x Hx. unfold describe_inputs in Hx. apply in_sort in Hx.
+    apply in_map_iff in Hx as [a [<- Ha]]. apply trunc_input_id. rewrite forallb_forall in H. auto.
+  Qed.
+
+  Lemma trunc_field_id f : depth_ok_field f = true -> trunc_field D qd (describe_field D pr S f) = describe_field D pr S f.
+  Proof.
+    intro H. apply andb_true_iff in H as [H1 H2]. unfold trunc_field, describe_field; simpl.
+    rewrite trunc_inputs_id by exact H2. rewrite cut_top_full_id by (apply Nat.leb_le; exact H1). reflexivity.
+  Qed.
+
+  Lemma trunc_fields_id fs : forallb depth_ok_field fs = true ->
+    map (trunc_field D qd) (describe_fields D pr S F fs) = describe_fields D pr S F fs.
+  Proof.
+    intro H. apply map_id_in. intros x Hx. unfold describe_fields in Hx. apply in_sort in Hx.
+    apply in_map_iff in Hx as [f [<- Hf]]. apply trunc_field_id. rewrite forallb_forall in H. apply H.
+    apply filter_In in Hf. tauto.
+  Qed.
+
+  Lemma trunc_type_id n t : depth_ok_type t = true -> trunc_type D qd (describe_type D pr S F n t) = describe_type D pr S F n t.
+  Proof.
+    intro H. unfold trunc_type, describe_type.
+    destruct t as [b a r d | vs r d | fs r rc d | fs ifs r d | fs r d | ms r d]; simpl in *; try reflexivity.
+    - rewrite trunc_inputs_id by exact H. reflexivity.
+    - rewrite trunc_fields_id by exact H. reflexivity.
+    - rewrite trunc_fields_id by exact H. reflexivity.
+  Qed.
+
+  Lemma trunc_directive_id d : forallb depth_ok_input (dd_args (snd d)) = true ->
+    trunc_directive D qd (describe_directive D pr S d) = describe_directive D pr S d.
+  Proof. intro H. unfold trunc_directive, describe_directive; simpl. rewrite trunc_inputs_id by exact H. reflexivity. Qed.
+
+  Theorem truncate_describe_id : depth_ok S = true -> truncate qd (describe pr S F) = describe pr S F.
+  Proof.
+    intro Hd. unfold depth_ok in Hd. apply andb_true_iff in Hd as [H1 H2].
+    rewrite forallb_forall in H1. rewrite forallb_forall in H2.
+    unfold truncate, describe; simpl. f_equal.
+    - apply map_id_in. intros x Hx. apply in_flat_map in Hx as [n [_ Hx]].
+      destruct (lookup n (types S)) as [t|] eqn:E; [|destruct Hx].
+      destruct Hx as [<-|[]]. apply trunc_type_id. apply (H1 _ (lookup_in _ _ _ E)).
+    - apply map_id_in. intros x Hx. apply in_sort in Hx. apply in_map_iff in Hx as [d [<- Hd]].
+      apply trunc_directive_id. apply H2. exact Hd.
   Qed.
 End Members.
+
+Lemma depth_of_type S : depth_ok S = true -> forall n t, lookup n (types S) = Some t -> depth_ok_type t = true.
+Proof.
+  intros Hdepth n t H. unfold depth_ok in Hdepth. apply andb_true_iff in Hdepth as [H1 _].
+  rewrite forallb_forall in H1. apply (H1 _ (lookup_in _ _ _ H)).
+Qed.
 
 (** ** the implementations of an interface *)
 Definition implements (S : schema) (i o : name) : bool :=
@@ -152,42 +226,21 @@ Section Main.
   Variable pr : sty -> option gval -> D.
   Variable S : schema.
   Variable F : features.
-  Hypothesis Hdepth : depth_ok S = true.
-  Hypothesis Hgate : gating_coherent S F = true.
   Hypothesis Honce : interfaces_declared_once S = true.
-
-  Lemma depth_of_type n t : lookup n (types S) = Some t -> depth_ok_type t = true.
-  Proof.
-    intro H. unfold depth_ok in Hdepth. apply andb_true_iff in Hdepth as [H1 _].
-    rewrite forallb_forall in H1. apply (H1 _ (lookup_in _ _ _ H)).
-  Qed.
-
-  Lemma gate_of_object o fs ifs r d i :
-    In o (members S) -> lookup o (types S) = Some (NObject fs ifs r d) -> In i ifs ->
-    visible_type S F o = visible_type S F i.
-  Proof.
-    intros Ho Hl Hi. unfold gating_coherent in Hgate. rewrite forallb_forall in Hgate.
-    specialize (Hgate _ Ho). rewrite Hl in Hgate. rewrite forallb_forall in Hgate.
-    apply eqb_prop. apply Hgate. exact Hi.
-  Qed.
 
   (** one listed type *)
   Lemma type_eq reg n t :
     Permutation reg (members S) -> NoDup reg ->
-    In n (members S) -> lookup n (types S) = Some t -> visible_type S F n = true ->
-    norm_type D (intro_type D pr S F reg n t) = describe_type D pr S F n t.
+    norm_type D (intro_type D pr S F reg n t) = trunc_type D query_depth (describe_type D pr S F n t).
   Proof.
-    intros Hperm Hnd Hn Hl Hv.
-    pose proof (depth_of_type _ _ Hl) as Hd.
-    unfold norm_type, intro_type, describe_type; simpl.
+    intros Hperm Hnd.
+    unfold norm_type, intro_type, describe_type, trunc_type; simpl.
     destruct t as [b a r d | vs r d | fs r rc d | fs ifs r d | fs r d | ms r d]; simpl in *.
     - reflexivity.
     - f_equal. f_equal. f_equal. apply map_ext. intro v. apply enum_eq.
-    - rewrite inputs_eq by exact Hd. reflexivity.
-    - rewrite fields_eq by exact Hd. f_equal. f_equal.
-      rewrite filter_all; [reflexivity|].
-      apply forallb_forall. intros i Hi. rewrite <- (gate_of_object _ _ _ _ _ _ Hn Hl Hi). exact Hv.
-    - rewrite fields_eq by exact Hd. f_equal. f_equal.
+    - rewrite inputs_eq. reflexivity.
+    - rewrite fields_eq. reflexivity.
+    - rewrite fields_eq. f_equal. f_equal.
       (* possibleTypes of an interface *)
       rewrite implementations_filter by exact Honce.
       rewrite (sort_map tref_name (named_ref S)).
@@ -197,20 +250,18 @@ Section Main.
                               | Some (NObject _ ifs _ _) => mem n ifs
                               | _ => false
                               end) with (implements S n).
-      assert (E : sort_by (fun o => o) (filter (implements S n) reg)
+      change (type_enabled S F) with (visible_type S F).
+      assert (E : sort_by (fun o => o) (filter (visible_type S F) (filter (implements S n) reg))
                   = filter (implements S n) (sort_by (fun o => o) (filter (visible_type S F) (members S)))).
       { rewrite filter_sort by (apply nodup_filter; apply members_spec).
         apply sort_perm_eq.
-        - rewrite map_id. apply nodup_filter. exact Hnd.
+        - rewrite map_id. apply nodup_filter, nodup_filter. exact Hnd.
         - apply NoDup_Permutation.
-          + apply nodup_filter. exact Hnd.
+          + apply nodup_filter, nodup_filter. exact Hnd.
           + apply nodup_filter, nodup_filter. apply members_spec.
           + intro o. rewrite !filter_In. split.
-            * intros [Ho Hi]. assert (Hom : In o (members S)) by (eapply Permutation_in; eauto).
-              split; [split; auto|exact Hi].
-              unfold implements in Hi. destruct (lookup o (types S)) as [[| | |fs' ifs' r' d'| |]|] eqn:El; try discriminate.
-              rewrite (gate_of_object _ _ _ _ _ n Hom El); [exact Hv|]. apply mem_in. exact Hi.
-            * intros [[Ho _] Hi]. split; auto. eapply Permutation_in; [apply Permutation_sym; eauto | exact Ho]. }
+            * intros [[Ho Hi] Hv]. split; [split; auto|exact Hi]. eapply Permutation_in; eauto.
+            * intros [[Ho Hv] Hi]. split; [split; auto|exact Hv]. eapply Permutation_in; [apply Permutation_sym; eauto | exact Ho]. }
       rewrite E. apply map_ext. intro o. reflexivity.
     - reflexivity.
   Qed.
@@ -221,9 +272,11 @@ Section Main.
   Lemma visible_tof n : defined S n = true -> visible_type S F n = subset (nt_req (tof n)) F.
   Proof. unfold visible_type, tof, defined. destruct (lookup n (types S)); auto; discriminate. Qed.
 
-  Theorem introspect_describes :
+  (** for EVERY definition: the response is the description as far as the query looks — every
+      wrapper chain cut after [query_depth] levels, everything else exact *)
+  Theorem introspect_describes_upto_depth :
     locations_known S = true ->
-    exists r, introspect pr S F = IntroOk r /\ normalise r = describe pr S F.
+    exists r, introspect pr S F = IntroOk r /\ normalise r = truncate query_depth (describe pr S F).
   Proof.
     intro Hlocs.
     destruct (registry_spec S) as [reg [Hreg [Hnd [Hin Hdef]]]].
@@ -231,7 +284,7 @@ Section Main.
     destruct (members_spec S) as [Hndm [Hinm Hdefm]].
     unfold introspect. rewrite Hreg. unfold locations_known in Hlocs. rewrite Hlocs. simpl.
     eexists. split; [reflexivity|].
-    unfold normalise, describe; simpl. f_equal.
+    unfold normalise, describe, truncate; simpl. f_equal.
     - (* types *)
       assert (E1 : intro_types D pr S F reg
                    = map (fun n => intro_type D pr S F reg n (tof n)) (filter (visible_type S F) reg)).
@@ -249,19 +302,25 @@ Section Main.
         specialize (Hl n (or_introl eq_refl)). unfold tof, defined in *. destruct (lookup n (types S)); [reflexivity|discriminate]. }
       rewrite E1, E2.
       2:{ intros n Hn. unfold listed in Hn. apply in_sort in Hn. apply filter_In in Hn. apply Hdefm. tauto. }
-      rewrite map_map.
+      rewrite !map_map.
       rewrite (sort_map rt_name (fun n => norm_type D (intro_type D pr S F reg n (tof n)))).
       rewrite (sort_by_ext _ (fun n => n)) by (intros; reflexivity).
       assert (E3 : sort_by (fun n => n) (filter (visible_type S F) reg) = listed S F).
       { unfold listed. apply sort_perm_eq.
         - rewrite map_id. apply nodup_filter. exact Hnd.
         - apply perm_filter. exact Hperm. }
-      rewrite E3. apply map_ext_in. intros n Hn.
-      unfold listed in Hn. apply in_sort in Hn. apply filter_In in Hn. destruct Hn as [Hn Hv].
-      apply type_eq; auto.
-      specialize (Hdefm n Hn). unfold tof, defined in *. destruct (lookup n (types S)); [reflexivity|discriminate].
+      rewrite E3. apply map_ext. intros n. apply type_eq; auto.
     - (* directives *)
-      f_equal. rewrite map_map. apply map_ext_in. intros d Hd. apply directive_eq.
-      unfold depth_ok in Hdepth. apply andb_true_iff in Hdepth as [_ H2]. rewrite forallb_forall in H2. apply H2. exact Hd.
+      rewrite <- (sort_map rd_name (trunc_directive D query_depth)).
+      f_equal. rewrite !map_map. apply map_ext. intros d. apply directive_eq.
+  Qed.
+
+  (** chains within the query's depth: the response IS the description *)
+  Theorem introspect_describes :
+    depth_ok S = true -> locations_known S = true ->
+    exists r, introspect pr S F = IntroOk r /\ normalise r = describe pr S F.
+  Proof.
+    intros Hdepth Hlocs. destruct (introspect_describes_upto_depth Hlocs) as [r [H1 H2]].
+    exists r. split; [exact H1|]. rewrite H2. apply truncate_describe_id. exact Hdepth.
   Qed.
 End Main.
